@@ -10,7 +10,7 @@ import functools
 from . import clex
 
 DEFAULT_STYLE = dict(p_empty=0.25, p_tab=0.1, p_multi=0.2, p_cmt=0.06, p_nl_slot=0.15, indent='random', blank=2, p_trail=0.1,
-                     p_join=0.08, eol='\n', p_cont=0.5, nonascii=True, p_brace_nl=0.5, bs_cmt=0.0)
+                     p_join=0.08, eol='\n', p_cont=0.5, nonascii=True, p_brace_nl=0.5, bs_cmt=0.0, multi_cmt=True, cmt_tab=True)
 
 REAL = ('id', 'kw', 'num', 'str', 'chr', 'punct', 'hdr')
 
@@ -42,7 +42,7 @@ class Renderer:
             return '\t' * self.rng.randint(1, 2)
         if r < self.st['p_tab'] + self.st['p_multi']:
             return ' ' * self.rng.randint(2, 5)
-        if r < self.st['p_tab'] + self.st['p_multi'] + 0.04:
+        if self.st['p_tab'] > 0 and r < self.st['p_tab'] + self.st['p_multi'] + 0.04:
             return ' \t'
         return ' '
 
@@ -53,6 +53,10 @@ class Renderer:
         word = self.rng.choice(['note', 'x*y', 'a/b', 'TODO:', 'see "q"', "it's", 'if (x) {', '#define', 'é', '\tt', 'a  b', '*/'[:1], '//'])
         if not self.st['nonascii'] and word == 'é':
             word = 'e'
+        if not self.st['cmt_tab'] and '\t' in word:
+            word = 't'
+        if not self.st['multi_cmt'] and k in (3, 4, 6):
+            k = 0
         if k <= 2 or (in_dir and not at_dir_end):
             c = '/* c%d %s */' % (n, word)
         elif k == 3 and not in_dir:
@@ -140,7 +144,7 @@ class Renderer:
                     cur = indent(depth_hint)
                 pending_nl = False
                 if cur.strip() == '':
-                    self.stmt_lines.append((len(out) + 1, depth_hint, kind))
+                    self.stmt_lines.append((sum(o.count('\n') + 1 for o in out) + 1, depth_hint, kind))
                 continue
             if k == 'dir':
                 if t[1] == 'start':
